@@ -173,6 +173,34 @@ def _rulefile(ctx):
             continue
         parsed = sre_parse.parse(pattern)
         groups = sorted(parsed.state.groupdict)
+        # the port fields accept every port number the writer can emit
+        # (decimal 1..65535): the sub-expression of each port group - a
+        # constant of the module - is matched against all of them by the
+        # analyser (constant evaluation of a regular expression literal)
+        import re as _re
+        for fcall in ast.walk(rexpr.args[0]):
+            if not (isinstance(fcall, ast.Call) and
+                    K.is_meth(fcall, 'format')):
+                continue
+            for kw in fcall.keywords:
+                if kw.arg is None or not kw.arg.endswith('_port'):
+                    continue
+                try:
+                    sub_re = _re.compile(fold(index, mod, kw.value))
+                except Exception as err:    # pylint: disable=broad-except
+                    ctx.fail('C15.1', parse, rexpr,
+                             '%s: the expression of group %s cannot be '
+                             'built: %s' % (kind, kw.arg, err),
+                             construct='%s port range %s' % (kind, kw.arg))
+                    continue
+                lost = [p for p in range(1, 65536)
+                        if sub_re.fullmatch(str(p)) is None]
+                ctx.ob('C15.1', parse, rexpr, not lost,
+                       '%s: group %s accepts every port 1..65535%s' % (
+                           kind, kw.arg, '' if not lost else
+                           ' - not accepted: %s%s' % (
+                               lost[:3], '...' if len(lost) > 3 else '')),
+                       construct='%s port range %s' % (kind, kw.arg))
         ctx.ob('C15.1', parse, rexpr, groups == sorted(set(fields)),
                '%s: named groups %s = template fields' % (kind, groups),
                construct='%s regex groups' % kind)
@@ -1122,6 +1150,44 @@ def _ldap(ctx):
            construct='option attribute template')
 
 
+def _list_values(ctx):
+    """C15.5: a list is written element for element: the values stored for a
+    list-typed field are one per element of the object's list that is not
+    None, in order (a writer that drops repeated values makes ['-v', '-v']
+    and ['-v'] the same entry)."""
+    mod = ctx.index.module(LDAP)
+    func = mod.functions.get('_dict_2_entry')
+    ctx.require(func is not None, '_dict_2_entry', rule='C15.5')
+    graph = ctx.cfg(func)
+    nz = N.Normaliser()
+    facts = N.must_facts(graph, nz)
+    judged = 0
+    for node in graph.nodes:
+        if not (node.kind == 'stmt' and isinstance(node.ast, ast.Assign) and
+                isinstance(node.ast.targets[0], ast.Subscript)):
+            continue
+        listy = any(f.key[0] == 'truth' and f.key[2] and
+                    'isinstance(' in f.key[1] and ', list)' in f.key[1]
+                    for f in facts[node])
+        if not listy:
+            continue
+        val = K.rexpr(func, node.ast.value)
+        if isinstance(val, ast.List) and not val.elts:
+            continue
+        judged += 1
+        ok = isinstance(val, ast.ListComp) and len(val.generators) == 1 and \
+            all(isinstance(c, ast.Compare) and len(c.ops) == 1 and
+                isinstance(c.ops[0], ast.IsNot) and
+                N.txt(c.comparators[0]) == 'None'
+                for c in val.generators[0].ifs)
+        ctx.ob('C15.5', func, node, ok,
+               'a list-typed field is written with one value per element '
+               '(%s)' % N.txt(val)[:80],
+               construct='list written element for element')
+    ctx.require(judged >= 1, 'store of a list-typed field in _dict_2_entry',
+                rule='C15.5', func=func)
+
+
 def _update_markers(ctx):
     """C15.5: an update hands the directory the entry exactly as to_entry
     built it - the attributes to_entry emits with an empty value are what
@@ -1149,6 +1215,7 @@ def _update_markers(ctx):
 
 def check(ctx):
     _update_markers(ctx)
+    _list_values(ctx)
     _rulefile(ctx)
     _unique(ctx)
     _events(ctx, EV_APP, 'AppTraceEvent', 'AppTraceEventTypes')
